@@ -344,6 +344,15 @@ def sites_and_facts(F, body, extra_facts=None):
                     if op == "Ne" and fe is not None:
                         facts.append((("edge", bb, fe), ge(a, c), txt + " [=]"))
                         facts.append((("edge", bb, fe), ge(c, a), txt + " [=]"))
+                    # an unsigned value that differs from 0 is at least 1
+                    zero = lambda f: all(v == 0 for v in f.values())
+                    lp0 = op_place(d[3]["l"])
+                    uns = lp0 is not None and not lp0["p"] and b.local_ty(lp0["l"]).startswith(("u", "usize"))
+                    if op in ("Eq", "Ne") and uns and (zero(c) or zero(a)):
+                        x = a if zero(c) else c
+                        ne_edge = fe if op == "Eq" else te
+                        if ne_edge is not None:
+                            facts.append((("edge", bb, ne_edge), aff_add(x, one, -1), txt + " [!= 0]"))
                     if tf[0] is not None:
                         facts.append((("edge", bb, te), tf[0], txt + " true"))
                     if tf[1] is not None and fe is not None:
